@@ -39,8 +39,8 @@ def run(R):
     R.cov.update({"evaluations": total, "distinct_nontrivial": len(seen),
                   "rule": "exhaustive 1-byte operands, 16^4 class product + 60000 seeded random 2-byte operands, then per length 0..%d: equal, all-00, all-ff, one flipped bit at every byte (every bit for short and 32/64-byte lengths), swapped-order pairs, carry/borrow chains of every length, seam patterns, 6 random pairs; memzero at every (offset,len) of a 40-byte region; 3 build variants; distinct = distinct record lines with non-empty operands" % (130 if thorough else 70),
                   "variants": variants})
-    R.sample(json.loads(open(files[0]).readlines()[100]))
-    R.sample(json.loads(open(files[-1]).readlines()[7]))
+    R.sample_line(files[0], 100)
+    R.sample_line(files[-1], 7)
     R.assumptions += ["buffers are placed 0..15 bytes before a PROT_NONE page, so over-reads of more than that always fault, shorter ones only at alignment 0"]
 
 
